@@ -8,7 +8,8 @@ C09 line protocol
 * `ebl <pspec> <row|nan> <row|nan>`                           — `exponential_by_lambda`
 
 pspec: `N:<x>` number, `L:[…]` list/tuple, `I:<lo>:<hi>` Interval object, `X` unsupported type.
-Reply: `ok <left> <right> <meanLo> <meanHi> <varLo> <varHi>` or `err <Kind>`.
+Reply: `ok <left> <right> <meanLo> <meanHi> <varLo> <varHi>`, `ok <left> <right> none` (moments left to the
+constructor) or `err <Kind>`.
 -/
 namespace Pun.Drv.C09
 open Pun Pun.Param
@@ -40,7 +41,10 @@ def parseEntry (s : String) : Option (List Rat × Option Entry) :=
   | _ => none
 
 def showOut : Except Err Out → String
-  | .ok o => s!"ok {showList o.left} {showList o.right} {showRat o.meanLo} {showRat o.meanHi} {showRat o.varLo} {showRat o.varHi}"
+  | .ok o =>
+    match o.mom with
+    | some m => s!"ok {showList o.left} {showList o.right} {showRat m.meanLo} {showRat m.meanHi} {showRat m.varLo} {showRat m.varHi}"
+    | none => s!"ok {showList o.left} {showList o.right} none"
   | .error e => s!"err {e}"
 
 def handlePar (sig : String) (rest : List String) : Option String := do
